@@ -28,6 +28,9 @@ type (
 // RepoDir is the checkout under test (VERIF_REPO, default /repo).
 func RepoDir() string { return modelscan.RepoDir() }
 
+// GeneratedFileName is the file name the generator writes.
+const GeneratedFileName = modelscan.GeneratedFileName
+
 
 // Entry is the compiled handle on one generated model (static references; produced by
 // cmd/mkregistry into registry_gen.go).
